@@ -85,6 +85,16 @@ pub fn opts_for(tag: &str) -> GenOpts {
             pct_field_args: 60,
             ..GenOpts::default()
         },
+        "suffix" => GenOpts {
+            pct_special_fields: 30,
+            pct_node_interface: 100,
+            pct_field_args: 10,
+            max_fields: 6,
+            max_decls: 8,
+            pct_var_in_object: 0,
+            pct_loadable: 0,
+            ..GenOpts::safe()
+        },
         "saferefetch" => GenOpts {
             pct_special_fields: 45,
             pct_pointer: 40,
@@ -102,7 +112,7 @@ fn tag_for(r: &mut Rng, engine: &str) -> &'static str {
     let k = r.below(100);
     match engine {
         "c25" => {
-            if k < 45 { "refetch" } else if k < 65 { "saferefetch" } else if k < 85 { "default" } else { "safe" }
+            if k < 35 { "refetch" } else if k < 52 { "saferefetch" } else if k < 70 { "suffix" } else if k < 88 { "default" } else { "safe" }
         }
         "c10" => {
             if k < 25 { "default" } else if k < 40 { "safe" } else if k < 55 { "refetch" } else if k < 62 { "saferefetch" } else if k < 72 { "objvar" } else { "subset" }
@@ -288,6 +298,48 @@ pub fn lines_for_case_pub(engine: &str, i: u64, tag: &str, spec: &str) -> Vec<St
     lines_for_case(engine, i, tag, spec, &mut r)
 }
 
+/// Into one client field on a type T that has `__refetch` and two argument-free linked fields a, b of type
+/// T: `sfxA: a { __refetch  sfxAB: b { __refetch } }  sfxB: b { __refetch  sfxBA: a { __refetch } }` — refetch
+/// paths [a], [a, b], [b], [b, a]: one is a proper suffix of another that sorts before it.
+fn inject_suffix_paths(p: &mut Project) -> bool {
+    use hx_projgen::env::{Env, SelKind};
+    let mut found: Option<(usize, String, String)> = None;
+    {
+        let env = Env::new(p);
+        for (k, (_, d)) in p.decls.iter().enumerate() {
+            let Decl::ClientField(f) = d else { continue };
+            if env.lookup(&f.parent, "__refetch").map(|s| s.kind) != Some(SelKind::Refetch) {
+                continue;
+            }
+            let Some(t) = p.schema.get(&f.parent) else { continue };
+            let selfs: Vec<String> = t
+                .fields()
+                .iter()
+                .filter(|fd| fd.ty.inner() == f.parent && fd.args.iter().all(|a| a.ty.is_nullable() || a.default.is_some()))
+                .map(|fd| fd.name.clone())
+                .collect();
+            if selfs.len() >= 2 {
+                let (mut a, mut b) = (selfs[0].clone(), selfs[1].clone());
+                if a > b {
+                    std::mem::swap(&mut a, &mut b);
+                }
+                found = Some((k, a, b));
+                break;
+            }
+        }
+    }
+    let Some((k, a, b)) = found else { return false };
+    let al = |alias: &str, name: &str, kids: Vec<Selection>| {
+        Selection::Linked(SelHead { alias: Some(alias.to_string()), name: name.to_string(), args: vec![], directives: vec![] }, kids)
+    };
+    let rf = |alias: &str| Selection::Scalar(SelHead { alias: Some(alias.to_string()), name: "__refetch".to_string(), args: vec![], directives: vec![] });
+    if let Decl::ClientField(f) = &mut p.decls[k].1 {
+        f.selections.push(al("sfxA", &a, vec![rf("sfxR1"), al("sfxAB", &b, vec![rf("sfxR2")])]));
+        f.selections.push(al("sfxB", &b, vec![rf("sfxR3"), al("sfxBA", &a, vec![rf("sfxR4")])]));
+    }
+    true
+}
+
 fn gen_case(r: &mut Rng, i: u64) -> Vec<String> {
     let engine = engine();
     if (i as usize) < DEMOS.len() {
@@ -296,6 +348,9 @@ fn gen_case(r: &mut Rng, i: u64) -> Vec<String> {
     }
     let tag = tag_for(r, &engine);
     let mut p = generate(r, &opts_for(tag));
+    if tag == "suffix" {
+        inject_suffix_paths(&mut p);
+    }
     if tag == "missingarg" {
         // a required argument removed from a selection WITH a selection set: the compiler accepts it
         if let Some(q) = hx_projgen::mutate::mutate_fault(r, &p, hx_projgen::mutate::FaultKind::MissingRequiredArgumentLinked) {
